@@ -163,4 +163,30 @@ theorem par_density_expected (ox oy ax ay bx cy : ℝ) (hdet : parDet ox oy ax a
   rw [h, ← Measure.map_apply hm hS, par_law ox oy ax ay bx cy hdet, Measure.smul_apply, Measure.restrict_apply hS,
     smul_eq_mul, Set.inter_comm]
 
+/-! ## the two admissible schemes for the triangle's density sampler
+
+  (a) rejection (as coded): `2n` proposals, kept with probability ½ — `tri_expected_count` (C10Sound): `n` points in expectation;
+  (b) exact: `n` proposals, mirrored — below: exactly `n` points, all in the triangle.  The harness accepts either and judges
+  the counts under the scheme the implementation follows. -/
+
+/-- scheme (b) returns exactly as many points as proposals, i.e. exactly `ceil(d·area)` -/
+theorem triDensityMirror_length (tape : List (ℝ × ℝ)) : (triDensityMirror tape).length = tape.length := by
+  simp [triDensityMirror]
+
+theorem triDensityMirror_count (d v : ℚ) (tape : List (ℝ × ℝ)) (h : (tape.length : ℤ) = densityCount d v) :
+    ((triDensityMirror tape).length : ℤ) = ⌈d * v⌉ := by
+  rw [triDensityMirror_length, h, densityCount_eq_ceil]
+
+/-- … and every point of scheme (b) has barycentric coordinates in the closed standard triangle -/
+theorem triDensityMirror_mem (tape : List (ℝ × ℝ)) (h : ∀ p ∈ tape, 0 ≤ p.1 ∧ p.1 ≤ 1 ∧ 0 ≤ p.2 ∧ p.2 ≤ 1) :
+    ∀ q ∈ triDensityMirror tape, 0 ≤ q.1 ∧ 0 ≤ q.2 ∧ q.1 + q.2 ≤ 1 := by
+  intro q hq
+  simp only [triDensityMirror, List.mem_map] at hq
+  obtain ⟨p, hp, rfl⟩ := hq
+  obtain ⟨a, b, c, d⟩ := h p hp
+  exact triMirror_simplex p.1 p.2 a b c d
+
+example : triDensityMirror [((3/4 : ℝ), (1/2 : ℝ)), (1/4, 1/4)] = [(1/4, 1/2), (1/4, 1/4)] := by
+  simp [triDensityMirror, triMirror, le]; norm_num
+
 end TPV.Geom
